@@ -219,12 +219,21 @@ def network_cases(jobs):
     def main():
         sc = S.CUR
         record = {}
-        d = P.Daemon(host="127.0.0.1")
+        from Pyro5 import callcontext
+        ann = [0]
+
+        class AnnotatingDaemon(P.Daemon):
+            def annotations(self):
+                return {"NETW": b"from the daemon"} if ann[0] & 2 else {}
+        d = AnnotatingDaemon(host="127.0.0.1")
         uri = d.register(make_echo(record)(), "echo")
         drv = memnet.ServerDriver(d)
         proxies = {}
-        for sername, a, v, comp, pad in jobs:
+        for jobno, (sername, a, v, comp, pad) in enumerate(jobs):
             sc.set_budget(30000)
+            # messages travel bare, with an annotation of the client's, with one of the daemon's, or with both
+            ann[0] = jobno % 4
+            callcontext.current_context.annotations = {"CLNT": b"from the client"} if ann[0] & 1 else {}
             config.COMPRESSION = comp
             config.SERPENT_BYTES_REPR = sername == "serpentb"
             tr = {"ser": sername, "v": norm_sent(a), "comp": comp, "level": "network", "hang": False, "pos": [], "sym": True, "idem": True, "exact": True,
@@ -284,6 +293,7 @@ def network_cases(jobs):
             traces.append(tr)
         config.COMPRESSION = False
         config.SERPENT_BYTES_REPR = False
+        callcontext.current_context.annotations = {}
         for p in proxies.values():
             try:
                 p._pyroRelease()
